@@ -59,6 +59,35 @@ EndToEnd == \A ord \in Enc!SeqPerms(DOMAIN Group1 \cup UNION {DOMAIN Final[i].at
                   r  == Reading(ts)
                   p  == Par!Run(ts)
               IN r.ok /\ NormMsg(r.v) = NormMsg(Final) /\ p.st = "ok" /\ NormMsg(p.groups) = NormMsg(Final)
+(* ---- design mutants (self-test): each must be refuted by BuildersAsDeclared's statement ---- *)
+ApplyMut(mode, f, c) ==
+  CASE mode = "attributes-replace" /\ c.c = "attributes" -> [f EXCEPT !.jattrs = c.list]
+    [] mode = "req-attrs-replace" /\ c.c = "req_attrs" -> [f EXCEPT !.reqs = [i \in 1..Len(c.list) |-> c.list[i].s]]
+    [] mode = "user-first-wins" /\ c.c = "user_name" -> (IF f.hasuser THEN f ELSE Apply(f, c))
+    [] mode = "last-inverted" /\ c.c = "last" -> [f EXCEPT !.last = ~c.b]
+    [] mode = "title-is-user" /\ c.c \in {"job_title", "job_name"} -> [f EXCEPT !.hasuser = TRUE, !.user = c.s]
+    [] OTHER -> Apply(f, c)
+RECURSIVE ApplyAllMut(_,_,_,_)
+ApplyAllMut(mode, f, cs, i) == IF i > Len(cs) THEN f ELSE ApplyAllMut(mode, ApplyMut(mode, f, cs[i]), cs, i + 1)
+GroupsMut(mode, f) ==
+  IF mode = "job-attrs-in-op-group" /\ op \in {"PrintJob", "CreateJob"}
+  THEN LET b == WithTitle(IF op = "PrintJob" THEN WithUser(Base(TRUE, UriV), f) ELSE Base(TRUE, UriV), f) IN
+       FoldAdds(b, [i \in 1..Len(f.jattrs) |-> [kind |-> 1, name |-> f.jattrs[i].name, v |-> f.jattrs[i].v]], 1)
+  ELSE IF mode = "no-job-id" /\ HasJobId(op)
+  THEN LET g == BuildGroups(op, f, 7, UriV) IN [g EXCEPT ![1].attrs = [n \in (DOMAIN @) \ {N_jobid} |-> @[n]]]
+  ELSE BuildGroups(op, f, 7, UriV)
+ReqMut(mode) == [ver |-> 257, code |-> IF mode = "wrong-code" /\ op = "GetJobs" THEN OpCode("GetJobAttributes") ELSE OpCode(op),
+                 id |-> <<0, 1>>, groups |-> GroupsMut(mode, ApplyAllMut(mode, NewFields, calls, 1)), payload |-> HasPayload(op)]
+MutOK(mode) == extras = <<>> => ReqMut(mode) = Declared(op, calls, 7, UriV)
+Mut_AttributesReplace == MutOK("attributes-replace")
+Mut_ReqAttrsReplace   == MutOK("req-attrs-replace")
+Mut_UserFirstWins     == MutOK("user-first-wins")
+Mut_LastInverted      == MutOK("last-inverted")
+Mut_TitleIsUser       == MutOK("title-is-user")
+Mut_JobAttrsInOpGroup == MutOK("job-attrs-in-op-group")
+Mut_NoJobId           == MutOK("no-job-id")
+Mut_WrongCode         == MutOK("wrong-code")
+Mut_None              == MutOK("none")                         \* control: holds
 GenCalls  == extras = <<>> => PrintT(<<"CASE", ToJson([op |-> op, calls |-> calls])>>)
 GenExtras == PrintT(<<"CASE", ToJson([op |-> op, calls |-> calls, extras |-> extras])>>)
 =============================================================================
